@@ -101,7 +101,22 @@ const (
 	condTag       // a well-formed quoted string
 	condMalformed // not a quoted string
 	condOdd       // cannot be classified (escapes inside etc.): nothing is demanded
+	condList      // a comma-separated list of well-formed tags: valid HTTP, but "not a quoted string"
 )
+
+// splitTagList splits a list of simple quoted tags; ok is false if any member
+// is not a simple quoted string.
+func splitTagList(v string) ([]string, bool) {
+	var out []string
+	for _, part := range strings.Split(v, ",") {
+		p := strings.TrimSpace(part)
+		if len(p) < 2 || p[0] != '"' || p[len(p)-1] != '"' || strings.ContainsAny(p[1:len(p)-1], "\"\\") {
+			return nil, false
+		}
+		out = append(out, p)
+	}
+	return out, len(out) >= 2
+}
 
 // classifyCond classifies an If-Match / If-None-Match value. known is the set
 // of tag strings the server itself has announced so far (any of those is
@@ -129,7 +144,10 @@ func classifyCond(v string, set bool, known map[string]bool) condKind {
 		return condOdd
 	}
 	if strings.Contains(v, ",") {
-		return condOdd // a list of tags: valid HTTP, not covered by the statement
+		if _, ok := splitTagList(v); ok {
+			return condList
+		}
+		return condOdd
 	}
 	return condMalformed
 }
@@ -175,6 +193,30 @@ func (t *Tree) evalPreconditions(o *outcome, n *Node, req *Request, known map[st
 		}
 	case condOdd:
 		undet = true
+	case condList:
+		// The statement: not a quoted string -> 400 (with an existing resource).
+		// HTTP: the precondition holds iff some member equals the current tag.
+		// Either reading is accepted; ignoring all but one member is neither.
+		tags, _ := splitTagList(im)
+		hint := req.CondHint["If-Match"]
+		switch {
+		case n == nil:
+			o.addRefuse(412, 400)
+			o.precondFail = true
+		case n.Tag == "" && hint == "":
+			undet = true
+		default:
+			any := hint == "list-with-current"
+			for _, tg := range tags {
+				any = any || (hint == "" && tg == n.Tag)
+			}
+			if any {
+				o.addAlt(400)
+			} else {
+				o.addRefuse(400, 412)
+				o.precondFail = true
+			}
+		}
 	}
 	switch kn {
 	case condStar:
@@ -204,6 +246,26 @@ func (t *Tree) evalPreconditions(o *outcome, n *Node, req *Request, known map[st
 		}
 	case condOdd:
 		undet = true
+	case condList:
+		tags, _ := splitTagList(inm)
+		hint := req.CondHint["If-None-Match"]
+		switch {
+		case n == nil:
+			o.addAlt(400)
+		case n.Tag == "" && hint == "":
+			undet = true
+		default:
+			any := hint == "list-with-current"
+			for _, tg := range tags {
+				any = any || (hint == "" && tg == n.Tag)
+			}
+			if any {
+				o.addRefuse(400, 412)
+				o.precondFail = true
+			} else {
+				o.addAlt(400)
+			}
+		}
 	}
 	if undet {
 		// cannot be decided from what has been announced: demand nothing
@@ -362,6 +424,8 @@ func condClass(req *Request, h string, j *Judge) string {
 		return "malformed"
 	case condOdd:
 		return "odd"
+	case condList:
+		return "list"
 	}
 	p := Normalise(req.Path)
 	if p.OK {
